@@ -455,7 +455,7 @@ Lemma replace_alt_rel o1 o2 ch m n str st D D' : lrel D D' -> useRTL o2 = useRTL
   yrel (replace_if_unnecessary (RN T_Alternate o1 ch m n str st D)) (replace_if_unnecessary (RN T_Alternate o2 ch m n str st D')).
 Proof.
   intros L R. pose proof (lrel_hd D D' L) as H. unfold replace_if_unnecessary. cbn [n_kids n_t n_o].
-  destruct D as [|d [|d2 dr]], D' as [|d' [|d2' dr']]; try contradiction; try (destruct H as [H _]; discriminate).
+  destruct D as [|d [|d2 dr]], D' as [|d' [|d2' dr']]; try contradiction; try (apply proj1 in H; discriminate).
   - change (T_Alternate =? T_Alternate) with true. cbv iota. right. left. split; [reflexivity|]. exists o2. split; [reflexivity | exact R].
   - destruct H as [_ [-> | [E O]]]; [left; reflexivity | right; left; split; [rewrite E; reflexivity | exact O]].
   - destruct H as [H K]. inversion H; subst. right. right. split; [reflexivity|].
@@ -481,7 +481,7 @@ Lemma alt_post_rel o1 o2 ch m n str st ks ks' : lrel ks ks' -> useRTL o2 = useRT
   yrel (alt_post (RN T_Alternate o1 ch m n str st ks)) (alt_post (RN T_Alternate o2 ch m n str st ks')).
 Proof.
   intros L R. pose proof (lrel_hd ks ks' L) as H. unfold alt_post. cbv zeta.
-  destruct ks as [|k [|k2 kr]], ks' as [|k' [|k2' kr']]; try contradiction; try (destruct H as [H _]; discriminate).
+  destruct ks as [|k [|k2 kr]], ks' as [|k' [|k2' kr']]; try contradiction; try (apply proj1 in H; discriminate).
   - unfold replace_if_unnecessary. cbn [n_kids n_t n_o]. change (T_Alternate =? T_Alternate) with true. cbv iota.
     cbn [mk_node n_t]. change (T_Nothing =? T_Alternate) with false. cbv iota.
     right. left. split; [reflexivity|]. exists o2. split; [reflexivity | exact R].
